@@ -574,6 +574,9 @@ func (obj *SparseInt32Vector) Import(filename string) error {
       values = append(values, int32(v))
     }
   }
+  if err := checkSparseIndices(indices, n); err != nil {
+    return err
+  }
   *obj = *NewSparseInt32Vector(indices, values, n)
   return nil
 }
@@ -605,6 +608,9 @@ func (obj *SparseInt32Vector) UnmarshalJSON(data []byte) error {
   }
   if len(r.Index) != len(r.Value) {
     return fmt.Errorf("invalid sparse vector")
+  }
+  if err := checkSparseIndices(r.Index, r.Length); err != nil {
+    return err
   }
   *obj = *NewSparseInt32Vector(r.Index, r.Value, r.Length)
   return nil
